@@ -75,10 +75,18 @@ CLAIMED = {
    text="For every type of the TLC-enumerated universe, pool values and variants rebuilt from subclass instances (int/str/list subclasses, OrderedDict, pendulum temporals) are marshalled three times (twice in a row and once after all other values of the type); TLC evaluates IsWire on the projected output (exact NoneType/bool/int/float/str/list/dict at every position, primitive keys) and asserts the harness-measured facts: accepted by json.dumps, identical on every call, no mutable container shared with the input, input unchanged; Literal non-members must raise ValueError.",
    ref="DESIGN.md section 4 C06",
    note="Trusted: TLC; term projection with exact class names; aliasing (id walks) and json.dumps verdict are measured in Python and only asserted by the trace spec."),
+ "C09": dict(
+   engine="Graph",
+   technique="TLA+ spec Graph.tla (BFS, visited set, cut rule, predecessor relation vs Acyclic/MembersFirst/CyclicImpliesRevisit/DeferredDenotesExactly), exhaustive TLC over class-graph topologies; TLC-emitted topologies and the value universe materialised, real static_order() sequences validated by TLC trace spec Graph_Trace.tla over opaque type ids with stdlib-derived member facts",
+   level="model_checking",
+   text="TLC explores the graph-construction algorithm over every topology of 2 classes x <=2 fields x edge kinds x every root (thorough: all five edge kinds, and 3 classes) and checks termination, acyclicity of the dependency relation (so every linear extension exists), members-before-containers, and that deferred nodes are revisits denoting exactly their type; it also demonstrates that the pinned cut rule and an intermediate revision violate these. Every emitted (topology, root) is materialised as real classes (four flavours, one or two modules), static_order() is called, and TLC evaluates eight invariants on each observed node sequence using member facts computed with typing.get_args/get_type_hints; equivalent root spellings (memoised, NewType, alias, ForwardRef) must give the same sequence.",
+   ref="DESIGN.md section 4 C09",
+   note="Trusted: TLC; the id projection (Python == on annotations); typing.get_type_hints/get_args as the definition of direct members. Classes nested in classes are not generated (see DESIGN.md)."),
 }
 NOT_BUILT = "check not built yet (build in progress; see DESIGN.md section 7 build order)"
 
 ENGINES = {
+ "Graph": dict(path="spec/Graph.tla", kind="TLA+ spec + TLC (exhaustive incl. liveness, topology emission, trace validation) + harness/drivers/c09.py"),
  "Wire": dict(path="spec/Wire.tla", kind="TLA+ specs Terms.tla/Wire.tla/Wire_Trace.tla + TLC (universe enumeration, trace validation) + harness/valuestream.py, harness/typeterms.py, drivers c01 c03 c06 c13"),
  "Slotted": dict(path="spec/Slotted.tla", kind="TLA+ spec + TLC (exhaustive, history emission, trace validation) + harness/drivers/c19.py"),
  "Future": dict(path="spec/Future.tla", kind="TLA+ spec + TLC (exhaustive, case emission, trace validation) + harness/drivers/c20.py"),
